@@ -5,36 +5,52 @@
 // (the right-hand side of the operator's proved postcondition in unit ops).
 // ======================================================================================
 pub open spec fn base_free() -> bool { forall|k: int| 0 <= k < dim_k() ==> slot_free(&base_graph(), k) }
-pub open spec fn gok(g: &SymbolicAsyncGraph) -> bool { sub_graph(g) && wf_graph(&base_graph()) && base_free() }
+#[verifier::opaque]
+pub open spec fn gok(g: &SymbolicAsyncGraph) -> bool { sub_graph(g) && wf_graph(&base_graph()) && base_free() && base_unit().subset_of(valid_colors()) && has_network(g) }
 
 pub proof fn arm_true(g: &SymbolicAsyncGraph)
     requires gok(g)
     ensures ok(g, unit_of(g), all_pts()), ok(g, ISet::<Pt>::empty(), ISet::<Pt>::empty())
 {
+    reveal(wf_graph);
+    reveal(gok);
+    reveal(ok);
     lemma_agree_intro(unit_of(g), all_pts(), unit_of(g));
 }
 pub proof fn arm_var(g: &SymbolicAsyncGraph, k: int)
     requires gok(g)
     ensures ok(g, comparator_state(g, k), s_var(k))
 {
+    reveal(wf_graph);
+    reveal(gok);
+    reveal(ok);
     lemma_agree_intro(comparator_state(g, k), s_var(k), unit_of(g));
 }
 pub proof fn arm_prop(g: &SymbolicAsyncGraph, i: int)
     requires gok(g)
     ensures ok(g, prop_set(g, i), s_prop(i))
 {
+    reveal(wf_graph);
+    reveal(gok);
+    reveal(ok);
     lemma_agree_intro(prop_set(g, i), s_prop(i), unit_of(g));
 }
 pub proof fn arm_not(g: &SymbolicAsyncGraph, r: ISet<Pt>, s: ISet<Pt>)
     requires gok(g), agree(r, s, unit_of(g))
     ensures ok(g, neg(g, r), co(s))
 {
+    reveal(wf_graph);
+    reveal(gok);
+    reveal(ok);
     lemma_neg_agree(g, r, s);
 }
 pub proof fn arm_and_or(g: &SymbolicAsyncGraph, r1: ISet<Pt>, s1: ISet<Pt>, r2: ISet<Pt>, s2: ISet<Pt>)
     requires gok(g), ok(g, r1, s1), ok(g, r2, s2)
     ensures ok(g, r1.intersect(r2), s1.intersect(s2)), ok(g, r1.union(r2), s1.union(s2))
 {
+    reveal(wf_graph);
+    reveal(gok);
+    reveal(ok);
     let u = unit_of(g);
     assert forall|p: Pt| u.contains(p) implies ((r1.contains(p) <==> s1.contains(p)) && (r2.contains(p) <==> s2.contains(p))) by {
         lemma_agree_pt(r1, s1, u, p); lemma_agree_pt(r2, s2, u, p);
@@ -46,6 +62,9 @@ pub proof fn arm_imp(g: &SymbolicAsyncGraph, r1: ISet<Pt>, s1: ISet<Pt>, r2: ISe
     requires gok(g), ok(g, r1, s1), ok(g, r2, s2)
     ensures ok(g, neg(g, r1).union(r2), co(s1).union(s2))
 {
+    reveal(wf_graph);
+    reveal(gok);
+    reveal(ok);
     arm_not(g, r1, s1);
     arm_and_or(g, neg(g, r1), co(s1), r2, s2);
 }
@@ -55,6 +74,9 @@ pub proof fn arm_iff(g: &SymbolicAsyncGraph, r1: ISet<Pt>, s1: ISet<Pt>, r2: ISe
         ok(g, r1.intersect(r2).union(neg(g, r1).intersect(neg(g, r2))), s_iff(s1, s2)),
         ok(g, neg(g, r1.intersect(r2).union(neg(g, r1).intersect(neg(g, r2)))), co(s_iff(s1, s2))),
 {
+    reveal(wf_graph);
+    reveal(gok);
+    reveal(ok);
     arm_not(g, r1, s1);
     arm_not(g, r2, s2);
     arm_and_or(g, r1, s1, r2, s2);
@@ -66,6 +88,8 @@ pub proof fn lemma_pre_in_base(g: &SymbolicAsyncGraph, r: ISet<Pt>)
     requires gok(g), r.subset_of(base_unit())
     ensures pre_of(g, r).subset_of(base_unit())
 {
+    reveal(wf_graph);
+    reveal(gok);
     assert forall|p: Pt| pre_of(g, r).contains(p) implies base_unit().contains(p) by {
         let v = choose|v: int| 0 <= v < dim_n() && #[trigger] var_pre_of(g, v, r).contains(p);
         let q = with_state(p, flip(p.s, v));
@@ -78,6 +102,9 @@ pub proof fn arm_ex(g: &SymbolicAsyncGraph, r: ISet<Pt>, s: ISet<Pt>, l: ISet<Pt
     requires gok(g), ok(g, r, s)
     ensures ok(g, ex_l(g, r, l), s_ex(s, l))
 {
+    reveal(wf_graph);
+    reveal(gok);
+    reveal(ok);
     let u = unit_of(g);
     lemma_pre_agree(g, r, s);
     lemma_pre_rebase(g, &base_graph(), s);
@@ -92,6 +119,9 @@ pub proof fn arm_ax(g: &SymbolicAsyncGraph, r: ISet<Pt>, s: ISet<Pt>, l: ISet<Pt
     requires gok(g), ok(g, r, s)
     ensures ok(g, ax_l(g, r, l), s_ax(s, l))
 {
+    reveal(wf_graph);
+    reveal(gok);
+    reveal(ok);
     arm_not(g, r, s);
     arm_ex(g, neg(g, r), co(s), l);
     arm_not(g, ex_l(g, neg(g, r), l), s_ex(co(s), l));
@@ -100,12 +130,17 @@ pub proof fn lemma_eu_in_base(g: &SymbolicAsyncGraph, r1: ISet<Pt>, r2: ISet<Pt>
     requires gok(g), r2.subset_of(base_unit()), r1.subset_of(base_unit())
     ensures eu_of(g, r1, r2).subset_of(base_unit())
 {
+    reveal(wf_graph);
+    reveal(gok);
     assert(eu_closed(g, r1, r2, base_unit()));
 }
 pub proof fn arm_eu(g: &SymbolicAsyncGraph, r1: ISet<Pt>, s1: ISet<Pt>, r2: ISet<Pt>, s2: ISet<Pt>)
     requires gok(g), ok(g, r1, s1), ok(g, r2, s2)
     ensures ok(g, eu_of(g, r1, r2), s_eu(s1, s2))
 {
+    reveal(wf_graph);
+    reveal(gok);
+    reveal(ok);
     lemma_eu_agree(g, r1, r2, s1, s2);
     lemma_eu_rebase(g, &base_graph(), s1, s2);
     lemma_eu_in_base(g, r1, r2);
@@ -114,6 +149,9 @@ pub proof fn arm_ef(g: &SymbolicAsyncGraph, r: ISet<Pt>, s: ISet<Pt>)
     requires gok(g), ok(g, r, s)
     ensures ok(g, ef_of(g, r), s_ef(s))
 {
+    reveal(wf_graph);
+    reveal(gok);
+    reveal(ok);
     arm_true(g);
     arm_eu(g, unit_of(g), all_pts(), r, s);
 }
@@ -121,6 +159,9 @@ pub proof fn arm_ag(g: &SymbolicAsyncGraph, r: ISet<Pt>, s: ISet<Pt>)
     requires gok(g), ok(g, r, s)
     ensures ok(g, ag_of(g, r), s_ag(s))
 {
+    reveal(wf_graph);
+    reveal(gok);
+    reveal(ok);
     arm_not(g, r, s);
     arm_ef(g, neg(g, r), co(s));
     arm_not(g, ef_of(g, neg(g, r)), s_ef(co(s)));
@@ -129,6 +170,9 @@ pub proof fn arm_eg(g: &SymbolicAsyncGraph, r: ISet<Pt>, s: ISet<Pt>, l: ISet<Pt
     requires gok(g), ok(g, r, s)
     ensures ok(g, eg_of(g, r, l), s_eg(s, l))
 {
+    reveal(wf_graph);
+    reveal(gok);
+    reveal(ok);
     lemma_eg_agree(g, r, s, l);
     lemma_eg_rebase(g, &base_graph(), s, l);
     assert forall|p: Pt| eg_of(g, r, l).contains(p) implies base_unit().contains(p) by {
@@ -140,6 +184,9 @@ pub proof fn arm_af(g: &SymbolicAsyncGraph, r: ISet<Pt>, s: ISet<Pt>, l: ISet<Pt
     requires gok(g), ok(g, r, s)
     ensures ok(g, af_of(g, r, l), s_af(s, l))
 {
+    reveal(wf_graph);
+    reveal(gok);
+    reveal(ok);
     arm_not(g, r, s);
     arm_eg(g, neg(g, r), co(s), l);
     arm_not(g, eg_of(g, neg(g, r), l), s_eg(co(s), l));
@@ -148,6 +195,9 @@ pub proof fn arm_au(g: &SymbolicAsyncGraph, r1: ISet<Pt>, s1: ISet<Pt>, r2: ISet
     requires gok(g), ok(g, r1, s1), ok(g, r2, s2)
     ensures ok(g, au_of(g, r1, r2, l), s_au(s1, s2, l))
 {
+    reveal(wf_graph);
+    reveal(gok);
+    reveal(ok);
     let u = unit_of(g);
     let b = &base_graph();
     assert forall|p: Pt| u.contains(p) implies (au_of(g, r1, r2, l).contains(p) <==> s_au(s1, s2, l).contains(p)) by {
@@ -221,6 +271,9 @@ pub proof fn arm_ew(g: &SymbolicAsyncGraph, r1: ISet<Pt>, s1: ISet<Pt>, r2: ISet
     requires gok(g), ok(g, r1, s1), ok(g, r2, s2)
     ensures ok(g, ew_spec(g, r1, r2, l), s_ew(s1, s2, l))
 {
+    reveal(wf_graph);
+    reveal(gok);
+    reveal(ok);
     let u = unit_of(g);
     assert(ok(g, within(g, r1), s1)) by {
         assert forall|p: Pt| u.contains(p) implies (within(g, r1).contains(p) <==> s1.contains(p)) by { lemma_agree_pt(r1, s1, u, p); }
@@ -238,6 +291,9 @@ pub proof fn arm_aw(g: &SymbolicAsyncGraph, r1: ISet<Pt>, s1: ISet<Pt>, r2: ISet
     requires gok(g), ok(g, r1, s1), ok(g, r2, s2)
     ensures ok(g, aw_spec(g, r1, r2), s_aw(s1, s2))
 {
+    reveal(wf_graph);
+    reveal(gok);
+    reveal(ok);
     arm_not(g, r1, s1);
     arm_not(g, r2, s2);
     arm_and_or(g, neg(g, r1), co(s1), neg(g, r2), co(s2));
@@ -250,6 +306,7 @@ pub proof fn lemma_proj_slot_in_base(r: ISet<Pt>, k: int)
     requires wf_graph(&base_graph()), base_free(), 0 <= k < dim_k(), r.subset_of(base_unit())
     ensures proj_slot(r, k).subset_of(base_unit())
 {
+    reveal(wf_graph);
     assert(slot_free(&base_graph(), k));
     assert forall|p: Pt| proj_slot(r, k).contains(p) implies base_unit().contains(p) by {
         let q = choose|q: Pt| r.contains(q) && differ_slot(p, q, k);
@@ -261,6 +318,9 @@ pub proof fn arm_bind(g: &SymbolicAsyncGraph, r: ISet<Pt>, s: ISet<Pt>, k: int)
     requires gok(g), 0 <= k < dim_k(), slot_free(g, k), ok(g, r, s)
     ensures ok(g, proj_slot(comparator_state(g, k).intersect(r), k), bind_sem(s, k))
 {
+    reveal(wf_graph);
+    reveal(gok);
+    reveal(ok);
     let u = unit_of(g);
     assert forall|p: Pt| u.contains(p) implies (proj_slot(comparator_state(g, k).intersect(r), k).contains(p) <==> bind_sem(s, k).contains(p)) by {
         let p2 = with_slot(p, k, p.s);
@@ -286,6 +346,9 @@ pub proof fn arm_exists(g: &SymbolicAsyncGraph, r: ISet<Pt>, s: ISet<Pt>, k: int
     requires gok(g), 0 <= k < dim_k(), slot_free(g, k), ok(g, r, s)
     ensures ok(g, proj_slot(r, k), exists_sem(s, k))
 {
+    reveal(wf_graph);
+    reveal(gok);
+    reveal(ok);
     let u = unit_of(g);
     assert forall|p: Pt| u.contains(p) implies (proj_slot(r, k).contains(p) <==> exists_sem(s, k).contains(p)) by {
         if proj_slot(r, k).contains(p) {
@@ -331,6 +394,9 @@ pub proof fn arm_forall(g: &SymbolicAsyncGraph, r: ISet<Pt>, s: ISet<Pt>, k: int
     requires gok(g), 0 <= k < dim_k(), slot_free(g, k), ok(g, r, s)
     ensures ok(g, neg(g, proj_slot(neg(g, r), k)), forall_sem(s, k))
 {
+    reveal(wf_graph);
+    reveal(gok);
+    reveal(ok);
     arm_not(g, r, s);
     arm_exists(g, neg(g, r), co(s), k);
     arm_not(g, proj_slot(neg(g, r), k), exists_sem(co(s), k));
@@ -340,6 +406,9 @@ pub proof fn arm_jump(g: &SymbolicAsyncGraph, r: ISet<Pt>, s: ISet<Pt>, k: int)
     requires gok(g), 0 <= k < dim_k(), ok(g, r, s)
     ensures ok(g, proj_state(comparator_state(g, k).intersect(r)), jump_sem(s, k))
 {
+    reveal(wf_graph);
+    reveal(gok);
+    reveal(ok);
     let u = unit_of(g);
     let c = comparator_state(g, k).intersect(r);
     assert forall|p: Pt| u.contains(p) implies (proj_state(c).contains(p) <==> jump_sem(s, k).contains(p)) by {
@@ -377,6 +446,8 @@ pub proof fn lemma_var_domain_char(g: &SymbolicAsyncGraph, k: int, d: ISet<Pt>, 
     requires gok(g), 0 <= k < dim_k(), unit_of(g).contains(p)
     ensures var_domain_set(g, k, d).contains(p) <==> d.contains(with_state(p, p.e[k]))
 {
+    reveal(wf_graph);
+    reveal(gok);
     let p2 = with_state(p, p.e[k]);
     assert(unit_of(g).contains(p2));
     assert(shaped(p2));
@@ -393,11 +464,13 @@ pub proof fn lemma_var_domain_char(g: &SymbolicAsyncGraph, k: int, d: ISet<Pt>, 
     }
 }
 pub proof fn lemma_restricted_gok(g2: &SymbolicAsyncGraph, g: &SymbolicAsyncGraph, k: int, d: ISet<Pt>)
-    requires gok(g), 0 <= k < dim_k(), restricted(g2, g, k, d), env_indep(d)
+    requires gok(g), 0 <= k < dim_k(), restricted(g2, g, k, d), env_indep(d), has_network(g2)
     ensures
         gok(g2),
-        forall|j: int| 0 <= j < dim_k() && j != k && slot_free(g, j) ==> slot_free(g2, j),
+        forall|j: int| j != k && slot_free(g, j) ==> slot_free(g2, j),
 {
+    reveal(wf_graph);
+    reveal(gok);
     assert forall|p: Pt, s: Seq<bool>| #![trigger unit_of(g2).contains(with_state(p, s))] unit_of(g2).contains(p) && s.len() == dim_n() implies unit_of(g2).contains(with_state(p, s)) by {
         let p2 = with_state(p, s);
         assert(unit_of(g).contains(p2));
@@ -405,7 +478,7 @@ pub proof fn lemma_restricted_gok(g2: &SymbolicAsyncGraph, g: &SymbolicAsyncGrap
         lemma_var_domain_char(g, k, d, p2);
         assert(with_state(p2, p2.e[k]) == with_state(p, p.e[k]));
     }
-    assert forall|j: int| 0 <= j < dim_k() && j != k && slot_free(g, j) implies slot_free(g2, j) by {
+    assert forall|j: int| j != k && slot_free(g, j) implies slot_free(g2, j) by {
         assert forall|p: Pt, q: Pt| #![trigger unit_of(g2).contains(p), differ_slot(p, q, j)] unit_of(g2).contains(p) && shaped(q) && differ_slot(p, q, j) implies unit_of(g2).contains(q) by {
             assert(unit_of(g).contains(q));
             lemma_var_domain_char(g, k, d, p);
@@ -422,6 +495,9 @@ pub proof fn arm_bind_dom(g2: &SymbolicAsyncGraph, g: &SymbolicAsyncGraph, r: IS
     requires gok(g), 0 <= k < dim_k(), slot_free(g, k), restricted(g2, g, k, d), env_indep(d), ok(g2, r, s)
     ensures ok(g, proj_slot(comparator_state(g, k).intersect(r.intersect(unit_of(g2))), k), bind_dom_sem(s, k, d))
 {
+    reveal(wf_graph);
+    reveal(gok);
+    reveal(ok);
     let u = unit_of(g);
     let u2 = unit_of(g2);
     let c = comparator_state(g, k).intersect(r.intersect(u2));
@@ -454,6 +530,9 @@ pub proof fn arm_exists_dom(g2: &SymbolicAsyncGraph, g: &SymbolicAsyncGraph, r: 
     requires gok(g), 0 <= k < dim_k(), slot_free(g, k), restricted(g2, g, k, d), env_indep(d), ok(g2, r, s)
     ensures ok(g, proj_slot(r.intersect(unit_of(g2)), k), exists_dom_sem(s, k, d))
 {
+    reveal(wf_graph);
+    reveal(gok);
+    reveal(ok);
     let u = unit_of(g);
     let u2 = unit_of(g2);
     let c = r.intersect(u2);
@@ -498,6 +577,9 @@ pub proof fn arm_forall_dom(g2: &SymbolicAsyncGraph, g: &SymbolicAsyncGraph, r: 
     requires gok(g), 0 <= k < dim_k(), slot_free(g, k), restricted(g2, g, k, d), env_indep(d), ok(g2, r, s)
     ensures ok(g, neg(g, proj_slot(neg(g2, r.intersect(unit_of(g2))), k)), forall_dom_sem(s, k, d))
 {
+    reveal(wf_graph);
+    reveal(gok);
+    reveal(ok);
     let u = unit_of(g);
     let u2 = unit_of(g2);
     let c = neg(g2, r.intersect(u2));
@@ -541,6 +623,9 @@ pub proof fn arm_dom_empty(g: &SymbolicAsyncGraph, s: ISet<Pt>, k: int, d: ISet<
         ok(g, ISet::<Pt>::empty(), exists_dom_sem(s, k, d)),
         ok(g, unit_of(g), forall_dom_sem(s, k, d)),
 {
+    reveal(wf_graph);
+    reveal(gok);
+    reveal(ok);
     let u = unit_of(g);
     let e = u.intersect(var_domain_set(g, k, d));
     assert forall|p: Pt, v: Seq<bool>| u.contains(p) && v.len() == dim_n() implies !d.contains(with_state(p, v)) by {
@@ -569,6 +654,9 @@ pub proof fn arm_fixed_point(g: &SymbolicAsyncGraph, k: int)
     requires gok(g), 0 <= k < dim_k()
     ensures ok(g, steady_set(), bind_sem(s_ax(s_var(k), steady_set()), k))
 {
+    reveal(wf_graph);
+    reveal(gok);
+    reveal(ok);
     let u = unit_of(g);
     let b = &base_graph();
     let l = steady_set();
@@ -593,4 +681,11 @@ pub proof fn arm_fixed_point(g: &SymbolicAsyncGraph, k: int)
         }
     }
     lemma_agree_intro(l, bind_sem(s_ax(s_var(k), l), k), u);
+}
+
+pub proof fn lemma_gok_facts(g: &SymbolicAsyncGraph)
+    requires gok(g)
+    ensures wf_graph(g), has_network(g), unit_of(g).subset_of(valid_colors()), sub_graph(g)
+{
+    reveal(gok);
 }
